@@ -43,6 +43,34 @@ pub fn observe(_ctx: &Ctx, st: &mut Stats, job: &Job) {
             return;
         }
     };
+    // history: every second job first renders another symbol of an unrelated size on the same thread
+    // (bigger or smaller, also checked), so that a renderer that keeps anything between calls shows
+    if job.seed & 1 == 1 {
+        let pv = 1 + (mix(job.seed, 0x16) as usize % 40);
+        let primer = Job { version: Some(pv), level: Some(0), mode: Some(2), class: 2, len: 1 + (job.seed as usize >> 8) % 7, mask: None, ..job.clone() };
+        if let Outcome::Ok(pq) = adapter::build(&primer.config()) {
+            match adapter::guarded(|| pq.to_str()) {
+                Ok(t) => match svgcheck::check_terminal(&t, &pq) {
+                    Ok(n) => {
+                        st.count("cells_decoded_from_text", n);
+                        st.count("primer_renders_checked", 1);
+                        st.reach("size_transitions", ((pq.size as u64) << 8) | qr.size as u64);
+                        if pq.size > qr.size {
+                            st.count("bigger_symbol_rendered_before_on_the_same_thread", 1);
+                        }
+                    }
+                    Err(v) => {
+                        flag(st, ID, v, &primer, false);
+                        return;
+                    }
+                },
+                Err(p) => {
+                    flag(st, ID, ("render-panic".into(), p), &primer, false);
+                    return;
+                }
+            }
+        }
+    }
     let before = adapter::digest(&qr);
     let text = match adapter::guarded(|| qr.to_str()) {
         Ok(t) => t,
@@ -71,7 +99,7 @@ pub fn run(ctx: &Ctx) -> Report {
     let st = pool::run(&jobs, ctx.remaining(), |st, job, _| observe(ctx, st, job));
     let mut rep = Report::new(
         st,
-        "jobs = all 40 sizes x 4 levels x payloads (capacity-filling + random; thorough: x 8 mask slots), mask rotating over forced 0..7 and automatic; to_str() is split into lines, every character mapped to a (top, bottom) pair (space = dark/dark, U+2588 = light/light, U+2580 = light/dark, U+2584 = dark/light) and the resulting grid compared cell by cell with a one-module light border around the module values; distinct key = (options, len, payload hash); every case non-trivial",
+        "jobs = all 40 sizes x 4 levels x payloads (capacity-filling + random; thorough: x 8 mask slots), mask rotating over forced 0..7 and automatic; to_str() is split into lines, every character mapped to a (top, bottom) pair (space = dark/dark, U+2588 = light/light, U+2580 = light/dark, U+2584 = dark/light) and the resulting grid compared cell by cell with a one-module light border around the module values; jobs are executed in shuffled order and every second job first renders (and checks) a symbol of an unrelated size on the same thread, so each rendering happens after bigger and after smaller ones; distinct key = (options, len, payload hash); every case non-trivial",
     );
     rep.expected_sets = vec![("sizes", 40)];
     rep.required_sets = vec![("sizes", 40)];
